@@ -64,13 +64,13 @@ def run_case(case, ctx, which='C11'):
 def build(case):
     rng = np.random.default_rng(case['seed'])
     k = int(rng.choice([1, 2, 2, 3, 3, 4]))
-    if case['seed'][-1] % 40 == 17:
+    if case['seed'][2] % 40 == 17:
         k = int(rng.integers(9, 12))          # many probes (more than 8: orders that a hash-based container would not keep)
     n_samples = int(rng.integers(10, 40))
     nsw = int(rng.integers(3, 6))
     rate = [100., 30000., 30000.185185, 29999.9537][int(rng.integers(0, 4))]      # calibrated (fractional) rates too
     mat_mode = {m: ['all', 'some', 'none'][int(rng.integers(0, 3))] for m in ('wm', 'similar', 'wmi')}
-    if case['seed'][-1] % 7 == 0:
+    if case['seed'][2] % 7 == 0:
         mat_mode = {m: 'all' for m in mat_mode}          # (cases that re-use an output folder: see _run)
     tsv_mode = {t: ['all', 'some', 'none'][int(rng.integers(0, 3))] for t in TSVS}
     dt_ind = ['int32', 'uint32', 'int64', 'mixed'][int(rng.integers(0, 4))]
@@ -153,25 +153,25 @@ def _run(case, ctx, d, which):
     specs, info = build(case)
     k = info['k']
     subdirs = []
-    same_leaf = case['seed'][-1] % 5 == 2          # .../imec0/ks2, .../imec1/ks2: probe folders with equal names
+    same_leaf = case['seed'][2] % 5 == 2          # .../imec0/ks2, .../imec1/ks2: probe folders with equal names
     for p, s in enumerate(specs):
         # the order given by the caller is the probe order: names whose lexicographic order differs (imec2 < imec10,
         # right/left/mid/aux), names with glob metacharacters, spaces and non-ASCII characters
         if same_leaf:
             sd = os.path.join(d, 'imec%d' % ([2, 10, 11, 3] + list(range(20, 30)))[p], 'ks2')
         else:
-            style = case['seed'][-1] % 4
+            style = case['seed'][2] % 4
             sd = os.path.join(d, ['probe%d' % p, 'pröbe %d' % p, 'M7[day%d]*' % p, (['right', 'left', 'mid', 'aux'] + ['zz%d' % q for q in range(12, 2, -1)])[p]][style])
         s.write(sd)
-        if case['seed'][-1] % 5 == 1 and p < len(specs) - 1:
+        if case['seed'][2] % 5 == 1 and p < len(specs) - 1:
             # the folder is the (since curated) output of an earlier merge: it still holds that merge's per-cluster probe
             # table, shorter than the id range in use now
             np.save(os.path.join(sd, 'cluster_probes.npy'), np.zeros(max(1, int(s.clusters.max()) - 1), dtype=np.int32))
         subdirs.append(sd)
     out = os.path.join(d, 'merged')
-    if case['seed'][-1] % 6 == 4:
+    if case['seed'][2] % 6 == 4:
         out = d            # the probes live below the output directory (session/imec0, session/imec1 -> session)
-    if case['seed'][-1] % 3 == 1:
+    if case['seed'][2] % 3 == 1:
         from pathlib import Path
         subdirs = [Path(x) for x in subdirs]      # str and Path forms are both documented
         out = Path(out)
@@ -198,7 +198,7 @@ def _run(case, ctx, d, which):
     mon = monitors.CURRENT
     if mon.fs:
         mon.fs.watch(*subdirs_s)
-    if k >= 2 and case['seed'][-1] % 7 == 0 and all(v == 'all' for v in info['mat_mode'].values()):
+    if k >= 2 and case['seed'][2] % 7 == 0 and all(v == 'all' for v in info['mat_mode'].values()):
         # (only when every probe ships every optional matrix: otherwise the second merge does not rewrite a matrix file that
         # the first left behind, and the stale file of another shape makes the returned model unloadable - re-used output
         # folders are not part of the statement)
@@ -209,7 +209,7 @@ def _run(case, ctx, d, which):
         if r0.ok:
             call(r0.value.close)
         before = [snapshot(sd) for sd in subdirs_s]
-    if k >= 2 and case['seed'][-1] % 7 == 6:
+    if k >= 2 and case['seed'][2] % 7 == 6:
         # history: the output directory already holds a merge of the same probes in the opposite order (same total
         # shapes, other block layout); the merge in the given order is the one judged
         ctx.cell('output_dir_holds_reversed_merge')
@@ -217,19 +217,19 @@ def _run(case, ctx, d, which):
         if r0.ok:
             call(r0.value.close)
     merger = Merger(subdirs, out)
-    if k >= 2 and case['seed'][-1] % 7 == 3:
+    if k >= 2 and case['seed'][2] % 7 == 3:
         # history: a first merge() fails at a later probe (an input file is missing), the input is repaired and
         # merge() is called again on the SAME Merger object; the retry is the one judged
         ctx.cell('failed_then_retried')
         f0 = dict(f0, retried=True)
-        victim = os.path.join(subdirs_s[-1], ['templates.npy', 'channel_map.npy', 'amplitudes.npy'][case['seed'][-1] % 3])
+        victim = os.path.join(subdirs_s[-1], ['templates.npy', 'channel_map.npy', 'amplitudes.npy'][case['seed'][2] % 3])
         os.rename(victim, victim + '.away')
         r0 = call(merger.merge)
         os.rename(victim + '.away', victim)
         if r0.ok:
             ctx.note('merge_succeeded_without_an_input_file')
             call(r0.value.close)
-    if k >= 2 and case['seed'][-1] % 7 == 5:
+    if k >= 2 and case['seed'][2] % 7 == 5:
         # history: merge, curation goes on in the first probe (a cluster is split: one more cluster id there), then
         # merge() again on the SAME Merger object; the second merge is the one judged, against the inputs as they are now
         r0 = call(merger.merge)
@@ -255,7 +255,7 @@ def _run(case, ctx, d, which):
         ctx.violation('merge_raised', desc, 'Merger.merge() raised %r' % r.exc, dict(f0, exc=r.exc_name), tb=r.tb)
         return
     m = r.value
-    if which == 'C11' and case['seed'][-1] % 3 == 0:
+    if which == 'C11' and case['seed'][2] % 3 == 0:
         # history: the same probe directories merged a second time in the same process (new Merger, new
         # output directory) must give the same merged dataset; the second output is the one judged
         call(m.close)
